@@ -1207,6 +1207,14 @@ def oracle_round5(chk, KL):
         chk.count("oracle:r5:extreme-ri")
         chk.case(("r5", "extreme-ri", ri, nr, nfunc))
         polar_oracle(chk, KL, ri, nr, 5 * nr, "nth", nfunc)
+    # round 6: radial samplings at which 2π/(5 nr) is not an exact step — numpy.arange(0, 2π, 2π/nth) returns nth + 1 angles for nr = 69, 71,
+    # 75, 138, 142, 150 … (seeded change C13-K built the kernel's angle grid that way: every kernel coefficient wrong at those nr only)
+    for nr in ([rng.choice([69, 71, 75])] if quick else [69, 71, 75, 138, 142, 150]):
+        ri, nfunc = rng.choice([0.3, 0.25, 0.5]), rng.randint(3, 8)
+        chk.oracle_cases += 1
+        chk.count("oracle:r6:nr>=69")
+        chk.case(("r6", "large-nr", ri, nr, nfunc))
+        polar_oracle(chk, KL, ri, nr, 5 * nr, "nth", nfunc)
     for dim in (rng.sample(range(2, 8), 3) if quick else range(2, 8)):
         ri, nr, nmax = small_config()
         chk.oracle_cases += 1
